@@ -127,3 +127,12 @@ Definition p_param_array : list op :=
    OLoopIter; OPushScope; num7; OPromote; OPush 5 []; OPopScope; OLoopIterEnd;
    OLoopIter; OPushScope; num7; OPromote; OPush 5 []; OPopScope; OLoopIterEnd;
    ORead 5; OPopScope; OCallEnd; OShout].
+
+(* a stored array (persistent store) whose EMPTY nested row still has the frame arena as its allocator:
+   what `make b get [[]]` leaves behind when promote's array arm moves a nested row instead of rebuilding it *)
+Definition st_frame_row : mstate :=
+  mkSt (mkHeap [] [OVec 0] [OVec 1] [] [] 2)
+       [[(0, MArr RPers 0 0 1 [MArr RFrame 0 1 0 []])]] [] [] [].
+(* one loop iteration doing b[0].push(7), then shout(b) *)
+Definition p_push_row_in_loop : list op :=
+  [OLoopIter; OPushScope; num7; OPromote; OPush 0 [0]; OPopScope; OLoopIterEnd; ORead 0; OShout].
